@@ -384,15 +384,16 @@ class ValidatedReadBucketProxy(log.PrefixingLogMixin):
 
             # To validate a block we need the root of the block hash tree,
             # which is also one of the leafs of the share hash tree, and is
-            # called "the share hash".
-            if not self.block_hash_tree[0]: # empty -- no root node yet
-                # Get the share hash from the share hash tree.
-                share_hash = self.share_hash_tree.get_leaf(self.sharenum)
-                if not share_hash:
-                    # No root node in block_hash_tree and also the share hash
-                    # wasn't sent by the server.
-                    raise hashtree.NotEnoughHashesError
-                self.block_hash_tree.set_hashes({0: share_hash})
+            # called "the share hash". The root may already be there:
+            # get_all_blockhashes() fills the whole tree, root included, from
+            # the share itself. So always hand the share hash to the tree:
+            # set_hashes() stores it if the root is missing and raises
+            # BadHashError if a root is present and differs.
+            share_hash = self.share_hash_tree.get_leaf(self.sharenum)
+            if not share_hash:
+                # The share hash wasn't sent by the server.
+                raise hashtree.NotEnoughHashesError
+            self.block_hash_tree.set_hashes({0: share_hash})
 
             if self.block_hash_tree.needed_hashes(blocknum):
                 self.block_hash_tree.set_hashes(blockhashes)
